@@ -81,10 +81,17 @@ impl ScriptRead {
 pub static mut READ_POLLS: usize = 0;
 pub static mut READ_POLL_LIMIT: usize = usize::MAX;
 
+/// At most `n` transport polls within one poll of a connection future.
 pub fn set_read_poll_limit(n: usize) {
     unsafe {
         READ_POLLS = 0;
         READ_POLL_LIMIT = n;
+    }
+}
+
+pub fn begin_poll() {
+    unsafe {
+        READ_POLLS = 0;
     }
 }
 
